@@ -174,6 +174,16 @@ def run_server(case):
             t.tick(0.25)
         res = ["ok", None]
         try:
+            # post-fault housekeeping by the application (oracle-only scenes, see extra): close the connections that
+            # were marked cut off but leave them registered; close the whole server and open it again (what
+            # ServerDoer.exit()/enter() do) once every registered connection is cut off
+            if p.get("closecut"):
+                for ca, r in list(sv.ixes.items()):
+                    if r.cutoff and r.cs is not None:
+                        sv.closeIx(ca)
+            if p.get("restart") and all(r.cutoff for r in sv.ixes.values()):
+                sv.close()
+                sv.ss = FakeListen()        # reopen(): a new listen socket; nothing else changes
             if p.get("wind"):            # the server is (re)wound while connections exist: directly or through its doer
                 how, which = p["wind"]
                 if how == "doer":
@@ -352,12 +362,14 @@ def failures(case, obs):
     # server
     kind = "remotertls" if case["tls"] else "remoter"
     any_raise = False
+    reaccepted = set()
     before = {i: [False, 0, 0] for i in case["ix0"]}
     for p, po in zip(case["passes"], obs["passes"]):
         io = {i: s for i, s in p.get("io", [])}
         hs = {i: h for i, h in p.get("hs", [])}
         now = {e[0]: e[1:] for e in po["ixes"]}
         accepted_now = {i for i, dead in p.get("acc", []) if not dead}
+        reaccepted |= accepted_now
         # accept servicing: a repeated address closes the old connection and installs the new one; a connection that
         # was already reset when accepted is closed and skipped; nothing of that may escape
         if p.get("acc") and po["res"][0] != "ok" and all(c == [0, 0] for c in po["calls"].values()):
@@ -440,6 +452,9 @@ def failures(case, obs):
             if h[0] == "err" and in_domain("handshake", None, h[1], h[2]) and i in pending:
                 if i in po["cxes"] or po["closed"].count(i) <= before.get("_closed", []).count(i):
                     out.append(("unmarked", "handshake-remoter", h[1], h[2], f"pending connection {i}: fault {h[1]}:{h[2]} did not abort it"))
+        for i, b in before.items():
+            if isinstance(i, int) and b[0] and i in now and not now[i][0] and i not in reaccepted:
+                out.append(("reverted", "cutoff", "-", 0, f"connection {i} was marked cut off and is not any more (still registered, never replaced)"))
         before = dict(now)
         before["_cx"] = list(po["cxes"])
         before["_closed"] = list(po["closed"])
@@ -1061,10 +1076,58 @@ def real_sends_only_probe():
         server.close()
 
 
+def gen_post_fault(rng):
+    """A connection is cut off by a fault / EOF, then the application closes it (closeIx, still registered) or
+    closes and reopens the whole server, then data is queued for it and the server is serviced on."""
+    tls = rng.random() < 0.5
+    kind = "remotertls" if tls else "remoter"
+    ids = list(range(1, rng.choice([1, 2, 3]) + 1))
+    good = {"recvs": [["data", "0102"]], "send": ["acc", 3]}
+    victims = [i for i in ids if rng.random() < 0.6] or [ids[0]]
+    restart = rng.random() < 0.4
+    if restart:
+        victims = list(ids)            # the server is only restarted once every connection is cut off
+    stops = [["data", ""], ["err", "os", errno.ECONNRESET], ["err", "os", errno.ETIMEDOUT]] + ([["err", "ssl", 8]] if tls else [])
+    p0 = {"hs": [[i, ["done"]] for i in ids], "io": [[i, good] for i in ids]}
+    p1 = {"tx": [[i, P1] for i in ids],
+          "io": [[i, {"recvs": [["data", "aa"], rng.choice(stops)], "send": ["acc", 2]} if i in victims else good] for i in ids]}
+    later = lambda: {"tx": [[i, c09.hx(rng, 3)] for i in ids if rng.random() < 0.7],
+                     "io": [[i, {"recvs": [["data", "bb"]], "send": rng.choice([["acc", 2], ["err", "os", errno.EPIPE]])}
+                             if i in victims else good] for i in ids]}
+    passes = [p0, p1]
+    for n in range(rng.choice([2, 3, 4])):
+        q = later()
+        if n == 0 or rng.random() < 0.4:
+            q["restart" if restart else "closecut"] = True
+        passes.append(q)
+    accept = rng.random() < 0.7
+    return {"scene": "server", "tls": tls, "wl": rng.random() < 0.5, "accept": accept,
+            "ix0": ids if not (tls and accept) else [], "cx0": ids if (tls and accept) else [], "passes": passes}
+
+
+def post_fault(ctx, n):
+    import random
+    rng = random.Random(ctx.seed * 104729 + 10)
+    bad = 0
+    for _ in range(n):
+        case = gen_post_fault(rng)
+        try:
+            obs = run_server(case)
+            f = [x for x in failures(case, obs) if x[0] != "isolation"]
+            why = " | ".join(x[4] for x in f) or None
+        except Exception as ex:
+            why = f"harness escape {type(ex).__name__}: {ex}"
+        if why and bad < 3:
+            ctx.violations.append({"kind": "post-fault", "why": why, "case": case})
+        bad += bool(why)
+    return {"post_fault_scenes": n, "post_fault_failures": bad}
+
+
 def extra(tier, ctx):
+    rep = post_fault(ctx, 150 if tier != "thorough" else 1500)
     if tier != "thorough":
-        return {}
-    rep = {"real_kernel": []}
+        return rep
+    rep["real_kernel"] = []
 
     def note(name, why, ex):
         rep["real_kernel"].append({"scene": name, "result": why or "ok"})
